@@ -158,9 +158,13 @@ def generic(prop, tier, quick, thorough, *, opts=(), modes=("plain",), ntr=(60, 
 
 def c01(tier):
     inv = ["MapRefinement", "LookupAgrees", "PairsAreContents"]
+    # every behaviour of up to 5 (6) direct operations on three keys with two short values, nothing
+    # merged: state the implementation keeps between calls (caches of decoded nodes, of lookups)
+    tiny = dict(keys="KTiny", look="LTiny", vals="VShort2", maxlive=3, features="FDirect", invariants=inv,
+                view="ViewHist", emit="EmitC01")
     return generic("C01", tier,
-                   [dict(invariants=inv, level=5, emit="EmitC01")],
-                   [dict(invariants=inv, level=6, emit="EmitC01"),
+                   [dict(invariants=inv, level=5, emit="EmitC01"), dict(tiny, level=6)],
+                   [dict(invariants=inv, level=6, emit="EmitC01"), dict(tiny, level=7),
                     dict(keys="KFull", look="LFull", vals="VFull", maxlive=3, features="FDirect",
                          invariants=inv, level=4, emit="EmitC01"),
                     dict(keys="KOne", look="LOne", vals="VShare", maxlive=1, maxbatch=2, invariants=inv,
@@ -179,6 +183,8 @@ def c02(tier):
                    [dict(invariants=inv, properties=pr, level=5, emit="EmitC01"),
                     dict(th, vals="VThreshA", features="FDirect", level=4)],
                    [dict(invariants=inv, properties=pr, level=6, emit="EmitC01"),
+                    dict(keys="KTiny", look="LTiny", vals="VShort2", maxlive=3, features="FDirect", invariants=inv,
+                         view="ViewHist", emit="EmitC01", level=7),
                     dict(keys="KFull", look="LFull", vals="VFull", maxlive=3, features="FDirect",
                          invariants=inv, properties=pr, level=4, emit="EmitC01"),
                     dict(th, vals="VThreshA", level=5), dict(th, vals="VThreshB", level=5),
@@ -298,13 +304,16 @@ def c03(tier):
     inv = ["ProofComplete", "ProofOnPath", "ProofSound", "EmitStC03"]
     base = dict(features="FDirect", invariants=inv, emit=None, prune="OnlyNoPrune")
     return generic("C03", tier,
-                   [dict(base, level=4), dict(base, level=4, keys="KThresh", look="LThresh", vals="VThreshC")],
+                   [dict(base, level=4), dict(base, level=4, keys="KThresh", look="LThresh", vals="VThreshC"),
+                    # every behaviour (batches included) on one key: proofs after a committed / aborted batch
+                    dict(base, level=8, keys="KOne", look="LOne", vals="VShare", maxlive=1, maxbatch=2, features="FBatch",
+                         view="ViewHist", prune="Both", invariants=["ProofComplete", "ProofOnPath", "EmitStC03"])],
                    [dict(base, level=5, keys="KFull", look="LFull", vals="VQuick", maxlive=3),
                     dict(base, level=5, prune="OnlyPrune"),
                     dict(base, level=4, keys="KThresh", look="LThresh", vals="VThreshA"),
                     dict(base, level=4, keys="KThresh", look="LThresh", vals="VThreshB")],
                    modes=(), need_tags=("has-extension", "has-branch", "embedded-child", "hashed-child"),
-                   sim=dict(base, features="FDirectNoop", keys="KFull", look="LFull", vals="VQuick", maxlive=4,
+                   sim=dict(base, features="FBatchNoop", keys="KFull", look="LFull", vals="VQuick", maxlive=4,
                             emit="EmitC03", invariants=["ProofComplete", "ProofOnPath"]), sim_n=(12, 120),
                    sim_depth=(5, 9))
 
